@@ -36,6 +36,10 @@ phase = st.one_of(
     st.sampled_from([k * PI / 4 for k in range(-8, 9)]),
     st.floats(-20, 20, allow_nan=False),
     st.integers(-6, 6),
+    # a hair off a multiple of pi/2 (an interferometer just off its dark fringe); many turns
+    st.builds(lambda k, d, s: k * PI / 2 + s * d, st.integers(-8, 8),
+              st.sampled_from([1e-7, 3e-6, 1e-5, 1e-4, 1e-3]), st.sampled_from([1, -1])),
+    st.sampled_from([1e9, -3e10, 1e12 + 0.5]),
 )
 conv = st.sampled_from(["Rx", "Rx", "H"])
 
@@ -194,6 +198,17 @@ def fock_state(draw, n_modes, n_photons):
     for _ in range(n_photons):
         s[draw(st.integers(0, n_modes - 1))] += 1
     return s
+
+
+def near_full_reflection(prog):
+    """True when some beam splitter (at any depth) has a reflectivity within 1e-6 of, but not equal to, 1: there
+    lightworks' sin(arccos(sqrt(r))) is ill-conditioned and entries are only good to ~1e-8."""
+    for op in prog["ops"]:
+        if op[0] == "bs" and isinstance(op[3], float) and 1 - 1e-6 < op[3] < 1:
+            return True
+        if op[0] in ("add", "plus") and near_full_reflection(op[1]):
+            return True
+    return False
 
 
 def program_stats(prog, depth=0, acc=None):
